@@ -2,6 +2,7 @@
 the same environment tapes (used by C01, C03, C04, C11, C17)."""
 import linecache
 import sys
+import types
 
 from mc import tape as tapemod
 from mc import util
@@ -23,11 +24,15 @@ class Harness(object):
     linecache.cache[self.fname] = (len(src), None, src.splitlines(True), self.fname)
     dn = malt.experimental.do_not_convert
     env = self.env
-    self.g = g = {
-        '__name__': 'mcprog_%s' % pid,
+    # a real module object, so that inspect.getmodule() works (lambda source lookup needs it)
+    self.modname = 'mcprog_%s' % pid
+    self.module = types.ModuleType(self.modname)
+    sys.modules[self.modname] = self.module
+    self.g = g = self.module.__dict__
+    g.update({
         'c': dn(env.c), 'it': dn(env.it), 'it2': dn(env.it2), 't': dn(env.t), 'cm': dn(env.cm),
         'mark': dn(env.mark), 'E': tapemod.E, 'E2': tapemod.E2, 'G': 9,
-    }
+    })
     if extra_globals:
       g.update(extra_globals)
     exec(compile(src, self.fname, 'exec'), g)  # pylint:disable=exec-used
@@ -36,6 +41,7 @@ class Harness(object):
 
   def close(self):
     linecache.cache.pop(self.fname, None)
+    sys.modules.pop(self.modname, None)
     util.purge_generated()
 
   def convert(self, config):
